@@ -197,6 +197,7 @@ type Runtime struct {
 	hash *maphash.Hash
 
 	jobQueue []func()
+	draining bool // leave() is running the jobs
 
 	promiseRejectionTracker PromiseRejectionTracker
 	asyncContextTracker     AsyncContextTracker
@@ -2885,6 +2886,13 @@ func (r *Runtime) getHash() *maphash.Hash {
 
 // called when the top level function returns normally (i.e. control is passed outside the Runtime).
 func (r *Runtime) leave() {
+	if r.draining {
+		// A job (a native reaction handler) has called back into the Runtime while the call stack is empty. The jobs it
+		// has queued must run after the rest of the current batch, in the outer loop, not here.
+		return
+	}
+	r.draining = true
+	defer func() { r.draining = false }()
 	var jobs []func()
 	for len(r.jobQueue) > 0 {
 		jobs, r.jobQueue = r.jobQueue, jobs[:0]
